@@ -820,7 +820,8 @@ def get_unhardened_child_path(base_path, root_path):
     base_path = base_path.strip().lower().replace("h", "'")
     root_path = root_path.strip().lower().replace("h", "'")
 
-    if root_path.startswith(base_path):
+    # the base path has to end at a component boundary of the root path ("m/1" is no prefix of "m/10/2")
+    if root_path == base_path or root_path.startswith(base_path + "/"):
         child_path = root_path[len(base_path) :]
         if "'" not in child_path:
             return f"m{child_path}"
